@@ -513,3 +513,8 @@ pub open spec fn bit_supported(a: Val, b: Val) -> bool { both(a, b, 1, 1) || bot
 
 /// the error `TryFrom<Value>` reports for the wrong kind: carries the offending value and the expected type's name (C17)
 pub open spec fn unexpected_type_err(v: Value, expect: Seq<char>) -> Error { Error::UnexpectedValueType(v, string_of(expect)) }
+
+/// C17, lists: "the element x converts" for a target type V (used under a quantifier: a named spec fn gives a usable trigger)
+pub open spec fn conv_can_ok<V: TryFrom<Value, Error = Error>>(x: Value) -> bool {
+    exists|u: V| call_ensures(<V as TryFrom<Value>>::try_from, (x,), Ok::<V, Error>(u))
+}
